@@ -123,6 +123,7 @@ def runSeq (c : CaseIn) : Array String := Id.run do
 /-- float32 comparison vs the rational model of the threshold test -/
 def runFcmp (c : CaseIn) : Array String := Id.run do
   let mut out : Array String := #[]
+  let mut nfail := 0
   for (ln, line) in c.lines do
     let (op, obs) := splitObs line
     match words op, words obs with
@@ -133,6 +134,16 @@ def runFcmp (c : CaseIn) : Array String := Id.run do
       let m := if cmpOp opS (nat! k * den) (num * nat! n) then "1" else "0"
       if m != impl then
         out := out.push s!"DIFF C15 case {c.num} line {ln}: float32({k})/float32({n}) {opS} {num}/{den}: impl=<{impl}> rational model=<{m}>"
+      -- the property's own reading of the threshold, evaluated on what the source's comparison yields:
+      -- k of n replying peers call the tx invalid (0 < k < n, so neither "nobody replied" nor "all rejected" applies)
+      let reached := decide (nat! k * den ≥ num * nat! n)
+      if nfail < 3 && 0 < nat! k && nat! k < nat! n then
+        if reached && impl == "0" then
+          nfail := nfail + 1
+          out := out.push s!"ORACLE-FAIL C15 case {c.num} line {ln}: shape=threshold-not-honoured {k} of {n} replying peers call the tx invalid, the share reaches the threshold {num}/{den}, but the source's test `{Neutrino.Gen.PushTx.thresholdLhs} {opS} {Neutrino.Gen.PushTx.thresholdRhs}` lets the broadcast succeed"
+        else if !reached && impl == "1" then
+          nfail := nfail + 1
+          out := out.push s!"ORACLE-FAIL C15 case {c.num} line {ln}: shape=threshold-too-eager {k} of {n} replying peers call the tx invalid, below the threshold {num}/{den}, but the source's test `{Neutrino.Gen.PushTx.thresholdLhs} {opS} {Neutrino.Gen.PushTx.thresholdRhs}` fails the broadcast"
     | _, _ => out := out.push s!"DIFF C15 case {c.num} line {ln}: unparsable line <{line}>"
   return out
 
